@@ -66,7 +66,7 @@ impl Spec {
         !self.nodes.is_empty()
             && self.nodes.iter().enumerate().all(|(i, n)| {
                 n.lead <= n.size
-                    && n.size <= 1 << 20
+                    && n.size <= 1 << 25
                     && n.links.iter().all(|l| (l.to as usize) > i && (l.to as usize) < self.nodes.len() && (2..=4).contains(&l.w) && l.adj as usize <= self.node_len(i))
             })
             && self.indegrees().iter().skip(1).all(|d| *d > 0)
@@ -315,7 +315,7 @@ fn run_hook(spec: &Spec, mats: &[Mat], descending: bool, stats: &Stats) -> Resul
             MockNode { bytes, links }
         })
         .collect();
-    let res = guarded(|| pack_mock_graph(&nodes)).map_err(|f| prefix_panic(f, spec, "hook"))?;
+    let res = guarded(|| pack_mock_graph(&nodes)).map_err(|f| prefix_panic(f, spec, if descending { "hook (object ids descending)" } else { "hook (object ids ascending)" }))?;
     let Some(mut p) = res else {
         return Ok(Outcome { packed: false, out_len: 0, duplicated: false });
     };
@@ -409,7 +409,10 @@ fn test_graph(spec: &Spec, stats: &Stats) -> CaseResult {
     let mixed = spec.mixed_nodes(false) > 0 || (spec.public && spec.mixed_nodes(true) > 0);
     let mut any_packed = false;
     let mut outcomes = vec![];
-    if spec.public {
+    // development aid: C05_ROUTES=public|hook restricts the routes (never set by registered commands)
+    let only_route = std::env::var("C05_ROUTES").ok();
+    let (run_pub, run_hk) = (!matches!(only_route.as_deref(), Some("hook") | Some("hook-desc")), only_route.as_deref() != Some("public"));
+    if spec.public && run_pub {
         let o = run_public(spec, &mats)?;
         stats.class(if o.packed { "public:packed" } else { "public:unpackable" });
         if o.packed && o.out_len > 65_535 {
@@ -422,7 +425,7 @@ fn test_graph(spec: &Spec, stats: &Stats) -> CaseResult {
         outcomes.push(("public", o));
     }
     for descending in [false, true] {
-        if !spec.hook || (spec.hook_order != 2 && (spec.hook_order == 1) != descending) {
+        if !spec.hook || !run_hk || (spec.hook_order != 2 && (spec.hook_order == 1) != descending) || (only_route.as_deref() == Some("hook-desc") && !descending) {
             continue;
         }
         let o = run_hook(spec, &mats, descending, stats)?;
@@ -583,6 +586,23 @@ fn known_shapes() -> Vec<Spec> {
         mk(&[4, 100, 4, 4], &[(0, 2, 4), (0, 2, 2), (0, 1, 4), (1, 3, 2), (2, 3, 2)]),
         mk(&[4, 65_530, 8, 4, 4], &[(0, 3, 2), (0, 1, 4), (0, 2, 2), (1, 4, 2), (3, 4, 2), (2, 3, 4)]),
     ]
+}
+
+/// three-node graphs whose critical 24-bit offset is 2^24 - 1 + delta (delta in -2..=2)
+fn boundary24_shape(idx: u64) -> Spec {
+    let delta = (idx % 5) as i64 - 2;
+    let shape = idx / 5;
+    let node = |i: u32, size: u32, links: Vec<(u32, u8)>| SNode { size, lead: size, stamp: i, links: links.into_iter().map(|(to, w)| SLink { to, w, adj: 0 }).collect() };
+    let limit = (1i64 << 24) - 1 + delta;
+    let nodes = match shape {
+        // root -> A (24), root -> B (24): B's offset behind A is the limit
+        0 => vec![node(0, 0, vec![(1, 3), (2, 3)]), node(1, (limit - 6) as u32, vec![]), node(2, 10, vec![])],
+        // the same with B behind a 16-bit link (B has to be moved in front of A)
+        1 => vec![node(0, 0, vec![(1, 3), (2, 2)]), node(1, (limit - 5) as u32, vec![]), node(2, 10, vec![])],
+        // root -> A (24) -> C (24) and root -> C (24): C can only follow A
+        _ => vec![node(0, 0, vec![(1, 3), (2, 3)]), node(1, (limit - 6 - 3) as u32, vec![(2, 3)]), node(2, 10, vec![])],
+    };
+    Spec { nodes, public: true, hook: true, norm: false, hook_order: 2 }
 }
 
 // =============================================================================================
@@ -1422,21 +1442,32 @@ fn main() {
     }
     let ctx = Ctx::from_args("C05");
     ctx.set_rule(
-        "Mock object graphs (acyclic by construction: links go to higher node indices; every node reachable) compiled through the public \
-         dump_table route (harness FontWrite type) and the pack_mock_graph hook; exhaustive small shapes (n<=4 quick, n<=5 thorough) over a size \
-         alphabet straddling 64 KiB x link widths, random DAG families (small mixed-size, large mostly-small, 32-bit sub-graphs with shared \
-         leaves, fans at the 65535 boundary), with link widths a function of the target node (known finding excluded) and, in separate stages, \
-         per-link widths. Big Gpos tables with PairPos/MarkBase lookups. Non-trivial: at least one route produced bytes AND (the graph is > 65535 \
-         bytes with a 16/24-bit link, or has a node with >= 2 incoming links); for Gpos: compiled output needed splitting or promotion. Distinct \
-         by hash of the spec.",
+        "Mock object graphs (acyclic by construction: links go to higher node indices; every node reachable from node 0) compiled through the public \
+         dump_table route (a harness FontWrite type; objects deduplicated by the library) and through the pack_mock_graph hook (no dedup, explicit \
+         link positions, offset adjustments 0..=len(parent), object ids ascending or descending, final layout checked). Stages: small-exhaustive = \
+         every rooted DAG shape with n<=4 (thorough: n<=5) x a size alphabet straddling 64 KiB x one link width per target node; small-mixed = the \
+         same with per-edge link bundles {none,16,32,32+16(,24,24+16)}; known-shapes = hand-written shapes around the known findings; boundary24 = \
+         16 MiB graphs whose critical 24-bit offset is 2^24-1+-2; dag / dag-nested / dag-mixed = random DAG families (2..13 nodes with mixed \
+         sizes, 14..400 nodes mostly small, 32-bit sub-graphs with shared leaves, fans at the 65535 boundary; identical-content twins) with widths \
+         a function of the target object and no nested 32-bit targets (both known findings excluded by construction, counted in \
+         excluded_known) / nested 32-bit targets allowed / per-link widths; gpos = Gpos tables of 1..5 lookups (PairPos format 1 with up to \
+         3 subtables, value formats incl. VariationIndex devices; MarkBasePos with null anchors and VariationIndex anchors; SinglePos) big enough \
+         to need subtable splitting and extension promotion, re-read with read-fonts and compared pair by pair / attachment by attachment. \
+         Non-trivial graph case: at least one route produced bytes AND (the graph is > 65535 bytes with a 16/24-bit link, or some node has >= 2 \
+         incoming links); non-trivial gpos case: the output shows split subtables or extension lookups. Distinct by hash of the spec.",
     );
-    ctx.assume("the byte walker knows only the input spec (payload bytes, link widths, adjustments), not the packer's order; PackingFailed/None is an allowed outcome");
-    ctx.assume("payloads are LCG streams keyed by the node stamp, so a wrong target is detected with overwhelming probability, not certainty, for objects shorter than 4 bytes");
+    ctx.assume("the byte walker knows only the input spec (payload bytes, link positions/widths, adjustments), not the packer's order; Err(PackingFailed)/None is an allowed outcome and is only counted");
+    ctx.assume("payloads are LCG streams keyed by the node stamp: a link landing on a wrong place is detected with overwhelming probability (certainty for objects >= 8 bytes pointing at an object start), not certainty, for objects shorter than 4 bytes");
+    ctx.assume("panics on acyclic graphs are violations; they are attributed to a known finding only when the graph satisfies that finding's structural predicate (mixed-width target / nested 32-bit targets) AND the panic site matches");
+    ctx.assume("gpos: read-fonts parses the compiled table correctly (it is the reader under test in C01/C04, not here)");
 
+    // development aid: C05_ONLY=stage-name runs a single stage (never set by registered commands)
+    let only_stage = std::env::var("C05_ONLY").ok();
+    let on = |name: &str| only_stage.as_deref().map(|o| o == name).unwrap_or(true) || ctx.is_worker() || ctx.is_replay();
     let quick_blocks = vec![
         Block { n: 2, sizes: FULL_SIZES, by_target: Some(&[2, 3, 4]), edge_opts: &[], rev: true },
         Block { n: 3, sizes: FULL_SIZES, by_target: Some(&[2, 3, 4]), edge_opts: &[], rev: true },
-        Block { n: 4, sizes: &[2, 32_768, 65_530, 70_000], by_target: Some(&[2, 4]), edge_opts: &[], rev: true },
+        Block { n: 4, sizes: &[2, 10, 32_768, 65_530, 70_000], by_target: Some(&[2, 4]), edge_opts: &[], rev: true },
     ];
     let thorough_blocks = vec![
         Block { n: 2, sizes: FULL_SIZES, by_target: Some(&[2, 3, 4]), edge_opts: &[], rev: true },
@@ -1447,7 +1478,9 @@ fn main() {
     let blocks = if ctx.quick() { quick_blocks } else { thorough_blocks };
     let count: u64 = blocks.iter().map(|b| b.count()).sum();
     ctx.note("exhaustive_by_target_graphs", serde_json::json!(count));
+    if on("small-exhaustive") {
     ctx.index_stage("small-exhaustive", Isolation::Procs, ctx.n(count, count), |i| decode_blocks(&blocks, i), test_graph);
+    }
 
     const MIXED_OPTS: &[&[u8]] = &[&[], &[2], &[4], &[4, 2]];
     let mixed_blocks = if ctx.quick() {
@@ -1463,14 +1496,30 @@ fn main() {
     };
     let mcount: u64 = mixed_blocks.iter().map(|b| b.count()).sum();
     ctx.note("exhaustive_mixed_width_graphs", serde_json::json!(mcount));
+    if on("small-mixed") {
     ctx.index_stage("small-mixed", Isolation::Procs, ctx.n(mcount, mcount), |i| decode_blocks(&mixed_blocks, i), test_graph);
+    }
 
     let shapes = known_shapes();
-    ctx.index_stage("known-shapes", Isolation::Threads, shapes.len() as u64, |i| shapes[i as usize].clone(), test_graph);
+    if on("known-shapes") {
+        ctx.index_stage("known-shapes", Isolation::Threads, shapes.len() as u64, |i| shapes[i as usize].clone(), test_graph);
+    }
 
-    ctx.prop_stage("dag", Isolation::Procs, ctx.n(6_000, 60_000), || dag_strategy(Mode::Clean), test_graph);
-    ctx.prop_stage("dag-nested", Isolation::Procs, ctx.n(2_000, 20_000), || dag_strategy(Mode::Nested), test_graph);
-    ctx.prop_stage("dag-mixed", Isolation::Procs, ctx.n(2_000, 20_000), || dag_strategy(Mode::Mixed), test_graph);
-    ctx.prop_stage("gpos", Isolation::Procs, ctx.n(400, 4_000), gpos_strategy, test_gpos);
+    if on("boundary24") {
+        ctx.index_stage("boundary24", Isolation::Procs, 15, boundary24_shape, test_graph);
+    }
+
+    if on("dag") {
+        ctx.prop_stage("dag", Isolation::Procs, ctx.n(20_000, 150_000), || dag_strategy(Mode::Clean), test_graph);
+    }
+    if on("dag-nested") {
+        ctx.prop_stage("dag-nested", Isolation::Procs, ctx.n(6_000, 40_000), || dag_strategy(Mode::Nested), test_graph);
+    }
+    if on("dag-mixed") {
+        ctx.prop_stage("dag-mixed", Isolation::Procs, ctx.n(6_000, 40_000), || dag_strategy(Mode::Mixed), test_graph);
+    }
+    if on("gpos") {
+        ctx.prop_stage("gpos", Isolation::Procs, ctx.n(600, 6_000), gpos_strategy, test_gpos);
+    }
     ctx.finish();
 }
